@@ -240,7 +240,13 @@ Section Resolvers.
        re_deprecated := negb (match ev_deprecation (snd v) with [] => true | _ => false end);
        re_reason := nullable_string (ev_deprecation (snd v)) |}.
 
-  (** fragment FullType on one registered type *)
+  (** [t.TypeRequiredFeatures().IsSubsetOf(ctx.Features)] on a type pointer *)
+  Definition type_enabled (n : name) : bool :=
+    match lookup n (types S) with Some t => subset (nt_req t) F | None => false end.
+
+  (** fragment FullType on one registered type.  "interfaces" and "possibleTypes" list only the
+      types whose required features are enabled (introspection.go, after the repair "introspection
+      by-name lookup and membership listings ignored request features") *)
   Definition intro_type (reg : list name) (n : name) (t : named_type) : r_type D :=
     {| rt_kind := kind_of_named t; rt_name := n; rt_desc := nullable_string (nt_desc t);
        rt_fields := match t with
@@ -249,11 +255,11 @@ Section Resolvers.
                     | _ => None
                     end;
        rt_inputs := match t with NInput fs _ _ _ => Some (map intro_input fs) | _ => None end;
-       rt_ifaces := match t with NObject _ ifs _ _ => Some (map (named_ref S) ifs) | _ => None end;
+       rt_ifaces := match t with NObject _ ifs _ _ => Some (map (named_ref S) (filter type_enabled ifs)) | _ => None end;
        rt_enums := match t with NEnum vs _ _ => Some (map intro_enum vs) | _ => None end;
        rt_possible := match t with
-                      | NInterface _ _ _ => Some (map (named_ref S) (implementations S reg n))
-                      | NUnion ms _ _ => Some (map (named_ref S) ms)
+                      | NInterface _ _ _ => Some (map (named_ref S) (filter type_enabled (implementations S reg n)))
+                      | NUnion ms _ _ => Some (map (named_ref S) (filter type_enabled ms))
                       | _ => None
                       end |}.
 
